@@ -5,6 +5,12 @@
    Variables are numbered in creation order and live until the end of the history.  Every size
    argument is a number of the machine ([N]; the drivers pass every usize up to 2^64-1).
 
+   reserve is a hint: the reference queue is the same before and after, whatever the argument.  What an
+   implementation does with a hint that cannot be followed (room for more than max_bytes bytes) the
+   property text does not say - it may ignore it, or give up as it gives up on every request for
+   storage that cannot exist.  [hint_unsat] names these operations; the reference accepts both
+   outcomes for them (see checks/C08.py judge), BufferModel - like the code - takes the second.
+
    Three answers.  [SReject]: the history has no meaning - a variable that does not exist yet, a
    byte range handed in that is not a possible object (longer than max_bytes), or a pointer
    argument "inside v" that does not point at bytes v exposes.  [SUnsat]: the operation needs an
@@ -125,7 +131,7 @@ Definition spec_step (qs : list queue) (o : op) : sstep :=
   | OAppend v d => on1 qs v (fun q => len q + N.of_nat (length d))%N (fun q => q ++ known d)
   | OAppendB v w => on2 qs v w (fun q p => len q + len p)%N (fun q p => q ++ p)
   | OResize v n => on1 qs v (fun _ => n) (fun q => q_resize q (N.to_nat n))
-  | OReserve v n => on1 qs v (fun _ => n) (fun q => q)
+  | OReserve v n => on1 qs v (fun _ => 0%N) (fun q => q)          (* a hint: the queue stays *)
   | ORemoveFront v n => on1 qs v (fun _ => 0%N) (fun q => if (len q <=? n)%N then [] else skipn (N.to_nat n) q)
   | ORemoveBack v n => on1 qs v (fun _ => 0%N) (fun q => if (len q <=? n)%N then [] else firstn (length q - N.to_nat n) q)
   | OClear v => on1 qs v (fun _ => 0%N) (fun _ => [])
@@ -141,6 +147,13 @@ Definition spec_step (qs : list queue) (o : op) : sstep :=
   | OAppendAt v off n => on1at qs v off n (fun q => len q + N.of_nat n)%N (fun q => q ++ q_part q off n)
   | OAssignAt v off n => on1at qs v off n (fun _ => N.of_nat n) (fun q => q_part q off n)
   | OPrependAt v off n => on1at qs v off n (fun q => N.of_nat n + len q)%N (fun q => q_part q off n ++ q)
+  end.
+
+(* a hint for room that cannot exist: the only operation whose outcome the reference leaves open *)
+Definition hint_unsat (o : op) : bool :=
+  match o with
+  | OReserve _ n => negb (fitsN n)
+  | _ => false
   end.
 
 Fixpoint spec_run (qs : list queue) (ops : list op) : sres (list queue * list (option bool)) :=
